@@ -268,6 +268,10 @@ def _abs_integrals(vol, data):
     return out
 
 
+def _with_prior(strat_fn):
+    return lambda tier: st.builds(lambda c, p: dict(c, prior=p), strat_fn(tier), st.sampled_from([False, False, True]))
+
+
 def check_solve1d(case):
     md = case["model"]
     if cases.is_implicit(case["integ"]) and case.get("units"):
@@ -290,6 +294,10 @@ def check_solve1d(case):
             entered.append(sim.admissible(P.smd, f.data))
             return cls.step(self, f, dtloc)
     solver = Rec(P.mesh, P.disc)
+    # the solver object may already have served another computation (see sim.preuse_solver; with 'prior': one iteration with the per-cell time-step directive,
+    # which is NOT conservative and is not judged); the judged run below asks for one global time step
+    hist = sim.preuse_solver(P, solver, case, case["cfl"], variant=(1 if case.get("prior") else None))
+    del entered[:]
     vol = P.dxf
     I0 = _integrals(vol, P.field.data)
     A0 = _abs_integrals(vol, P.field.data)
@@ -348,7 +356,7 @@ def check_solve1d(case):
     target(worst, "implicit-drift" if implicit else "explicit-drift")
     moved = any(float(np.max(np.abs(a - b))) > 0 for a, b in zip(fin.data, P.field.data))
     return dict(nontrivial=bool(moved), labels=["model:" + md["name"], "integ:" + case["integ"], "bc:" + case["bckind"], "mesh:" + case["mesh"]["kind"], "implicit" if implicit else "explicit",
-                                                "cfl:" + ("<=1" if case["cfl"] <= 1 else "<=10" if case["cfl"] <= 10 else ">10")])
+                                                "cfl:" + ("<=1" if case["cfl"] <= 1 else "<=10" if case["cfl"] <= 10 else ">10"), "solver-history:%d" % hist])
 
 
 def _momentum_floor(P, vol, k):
@@ -401,7 +409,7 @@ def check_solve2d(case):
 SUBCHECKS = [
     SubCheck("operator1d", check_op1d, strategy=sim.with_units(strat_op1d), examples={"quick": 400, "thorough": 2500}, shards={"quick": 4, "thorough": 16}),
     SubCheck("operator2d", check_op2d, strategy=sim.with_units(strat_op2d), examples={"quick": 250, "thorough": 1500}, shards={"quick": 3, "thorough": 12}),
-    SubCheck("solve1d", check_solve1d, strategy=sim.with_units(strat_solve1d), examples={"quick": 200, "thorough": 1200}, shards={"quick": 6, "thorough": 16}),
+    SubCheck("solve1d", check_solve1d, strategy=_with_prior(sim.with_units(strat_solve1d)), examples={"quick": 200, "thorough": 1200}, shards={"quick": 6, "thorough": 16}),
     SubCheck("solve2d", check_solve2d, strategy=sim.with_units(strat_solve2d), examples={"quick": 120, "thorough": 800}, shards={"quick": 3, "thorough": 12}),
 ]
 
